@@ -1,5 +1,6 @@
 #![allow(dead_code)]
 mod alloc;
+mod bz2;
 mod findings;
 mod panics;
 mod runner;
